@@ -35,9 +35,14 @@ def get_mm(gid, grammars, user_classes=None):
     return MMS[gid]
 
 
-def table(model):
+class PyObj:
+    """A plain Python object (no _tx_attrs) hung into a model by the runner."""
+
+
+def table(model, objs=None, ids=None):
     """Objects in pre-order over containment attributes (declaration order)."""
-    objs, ids = [], {}
+    if objs is None:
+        objs, ids = [], {}
 
     def visit(o):
         ids[id(o)] = len(objs)
@@ -55,12 +60,41 @@ def table(model):
     return objs, ids
 
 
+def add_plain(objs, ids):
+    """Append the plain Python objects reachable from the table (discovery order: holders first)."""
+    i = 0
+    while i < len(objs):
+        o = objs[i]
+        i += 1
+        for k, v in list(o.__dict__.items()):
+            if k == "parent":
+                continue
+            for x in (v if isinstance(v, (list, tuple)) else [v]):
+                if isinstance(x, PyObj) and id(x) not in ids:
+                    ids[id(x)] = len(objs)
+                    objs.append(x)
+
+
+def mk_py(spec, holder):
+    o = PyObj()
+    o.name = spec["name"]
+    o.kids = [mk_py(k, o) for k in spec.get("kids", [])]
+    o.one = mk_py(spec["one"], o) if spec.get("one") else None
+    o.fn = (lambda: None)
+    if spec.get("hidden"):
+        o._secret = mk_py(spec["hidden"], o)
+        o._tx_fake = [mk_py(spec["hidden"], o)]
+    if spec.get("with_parent"):
+        o.parent = holder
+    return o
+
+
 def dump(objs, ids):
     out = []
     foreign = 0
     for o in objs:
         attrs = []
-        cls_attrs = type(o)._tx_attrs
+        cls_attrs = getattr(type(o), "_tx_attrs", {})
         for k in o.__dict__:
             v = getattr(o, k)
             decl = k in cls_attrs
@@ -106,11 +140,11 @@ def main():
             seen.setdefault(type(o).__name__, o)
         for c, o in seen.items():
             for T in classes:
-                if textx_isinstance(o, mm[T]):
+                if textx_isinstance(o, mm[T] if T in mm else PyObj):
                     res["conf"].append([c, T])
         prov = mm.scope_providers["*.*"]
         for r, text, T in case["queries"]:
-            ref = ObjCrossRef(obj_name=text, cls=mm[T], position=0, scope_provider=None, match_rule_name="FQN")
+            ref = ObjCrossRef(obj_name=text, cls=mm[T] if T in mm else PyObj, position=0, scope_provider=None, match_rule_name="FQN")
             try:
                 t = prov(objs[r], None, ref)
                 if t is None:
@@ -135,7 +169,98 @@ def main():
             except Exception as e:  # noqa: BLE001
                 res["e2e"].append({"ok": False, "msg": str(e), "line": None, "col": None, "err_type": None,
                                    "type": type(e).__name__})
+        # FQN with a scope_redirection_logic: the owner class of a package stands in for the package
+        if case.get("redir_queries"):
+            from textx.scoping import Postponed
+
+            def logic(o):
+                return [o.owner] if type(o).__name__ == "Package" and getattr(o, "owner", None) is not None else []
+            prov_r = sp.FQN(scope_redirection_logic=logic)
+            res["redir_answers"] = []
+            for r, text, T in case["redir_queries"]:
+                ref = ObjCrossRef(obj_name=text, cls=mm[T], position=0, scope_provider=None, match_rule_name="FQN")
+                try:
+                    t = prov_r(objs[r], None, ref)
+                    res["redir_answers"].append("U" if t is None else "P" if type(t) is Postponed else "F%d" % ids[id(t)] if id(t) in ids else "E:foreign")
+                except Exception as e:  # noqa: BLE001
+                    res["redir_answers"].append("E:%s: %s" % (type(e).__name__, e))
+        # plain Python objects hung into the parsed model, then direct calls on the extended graph
+        if case.get("py"):
+            for d in case["py"]:
+                setattr(objs[d["holder"]], d["attr"], [mk_py(x, objs[d["holder"]]) for x in d["objs"]])
+            add_plain(objs, ids)
+            res["py_dump"], _ = dump(objs, ids)
+            res["py_conf"] = res["conf"] + [["PyObj", T] for T in classes if textx_isinstance(objs[-1], mm[T] if T in mm else PyObj)]
+            res["py_answers"] = []
+            for r, text, T in case["py_queries"]:
+                ref = ObjCrossRef(obj_name=text, cls=mm[T] if T in mm else PyObj, position=0, scope_provider=None, match_rule_name="FQN")
+                try:
+                    t = prov(objs[r], None, ref)
+                    res["py_answers"].append("U" if t is None else "F%d" % ids[id(t)] if id(t) in ids else "E:foreign")
+                except Exception as e:  # noqa: BLE001
+                    res["py_answers"].append("E:%s: %s" % (type(e).__name__, e))
+    for case in payload.get("multi", []):
+        out.append(run_multi(case, grammars, classes))
     json.dump(out, sys.stdout)
+
+
+def run_multi(case, grammars, classes):
+    """Several files: main imports libraries (FQNImportURI, importAs or not) or they come from FQNGlobalRepo."""
+    import os
+    import shutil
+    import tempfile
+    from textx.scoping import Postponed
+    res = {"world": None, "roots": [], "locals": {}, "redir": {}, "answers": [], "error": None, "conf": []}
+    d = tempfile.mkdtemp(prefix="c10_")
+    try:
+        for name, text in case["files"].items():
+            with open(os.path.join(d, name), "w") as f:
+                f.write(text)
+        mm = metamodel_from_str(grammars[case["gid"]])
+        kind = case["provider"]
+        prov = (sp.FQNImportURI() if kind == "imp" else sp.FQNImportURI(importAs=True) if kind == "impas"
+                else sp.FQNGlobalRepo(os.path.join(d, "lib*.m")))
+        mm.register_scope_providers({"*.*": prov})
+        try:
+            main = mm.model_from_file(os.path.join(d, case["main"]))
+        except Exception as e:  # noqa: BLE001
+            res["error"] = {"msg": getattr(e, "message", str(e)).replace(d, "<dir>"), "line": getattr(e, "line", None),
+                            "col": getattr(e, "col", None), "type": type(e).__name__}
+            return res
+        repo = main._tx_model_repository
+        models = [main] + [x for x in repo.local_models if x is not main]
+        for x in repo.all_models.filename_to_model.values():
+            if all(x is not y for y in models):
+                models.append(x)
+        objs, ids = [], {}
+        for x in models:
+            res["roots"].append(len(objs))
+            table(x, objs, ids)
+        res["files"] = [os.path.basename(x._tx_filename) for x in models]
+        res["world"], _ = dump(objs, ids)
+        for x in models:
+            res["locals"][str(ids[id(x)])] = [ids[id(y)] for y in x._tx_model_repository.local_models]
+        if kind == "impas":
+            for o in objs:
+                if hasattr(o, "_tx_loaded_models"):
+                    res["redir"][str(ids[id(o)])] = [ids[id(y)] for y in o._tx_loaded_models]
+        seen = {}
+        for o in objs:
+            seen.setdefault(type(o).__name__, o)
+        for c, o in seen.items():
+            for T in classes:
+                if T in mm and textx_isinstance(o, mm[T]):
+                    res["conf"].append([c, T])
+        for r, text, T in case["queries"]:
+            ref = ObjCrossRef(obj_name=text, cls=mm[T] if T in mm else PyObj, position=0, scope_provider=None, match_rule_name="FQN")
+            try:
+                t = prov(objs[r], None, ref)
+                res["answers"].append("U" if t is None else "P" if type(t) is Postponed else "F%d" % ids[id(t)] if id(t) in ids else "E:foreign")
+            except Exception as e:  # noqa: BLE001
+                res["answers"].append("E:%s: %s" % (type(e).__name__, str(e).replace(d, "<dir>")))
+    finally:
+        shutil.rmtree(d, ignore_errors=True)
+    return res
 
 
 main()
